@@ -61,6 +61,11 @@ func lnRoutes() []map[string]any {
 		// through a pooled scratch chunk - then fall-through: the consumer reads the whole stream
 		{"match": []map[string]any{vhm(4, "Y", "wrapfall")}, "handle": []map[string]any{{"handler": "verif_h", "k": "mark", "l": 1, "r": 7}, {"handler": "verif_h", "k": "wrap"}}},
 		{"match": []map[string]any{vhm(40, "N", "wrapfall")}, "handle": []map[string]any{{"handler": "verif_h", "k": "term"}}},
+		// "subfall": a matched route whose handler is the real subroute handler; its only inner route looks at 12 bytes and
+		// says no, so the subroute hands the connection back (its `next`), the remaining routes say no, fall-through - for
+		// EVERY such connection, not only the first one the handler sees
+		{"match": []map[string]any{vhm(4, "Y", "subfall")}, "handle": []map[string]any{{"handler": "verif_h", "k": "mark", "l": 1, "r": 8},
+			{"handler": "subroute", "routes": []map[string]any{{"match": []map[string]any{vhm(12, "N", "subfall")}, "handle": []map[string]any{{"handler": "verif_h", "k": "term"}}}}}}},
 		// a non-terminal handler eats a prefix, then the connection falls through
 		{"match": []map[string]any{vhm(4, "Y", "eatfall")}, "handle": []map[string]any{{"handler": "verif_h", "k": "mark", "l": 1, "r": 3}, {"handler": "verif_h", "k": "eat", "n": eatN}}},
 		// never decided: matching fails when the client's stream ends
@@ -115,7 +120,7 @@ func runListener(sc lnScen, idx int, seed int64) (*lnTrace, error) {
 	for i, kind := range sc.Mix {
 		id := fmt.Sprintf("k%d", i+1)
 		slen := sc.Slen
-		if (kind == "term" || kind == "eatfall" || kind == "tlsfall" || kind == "hold") && slen < 16 {
+		if (kind == "term" || kind == "eatfall" || kind == "tlsfall" || kind == "hold" || kind == "subfall") && slen < 16 {
 			slen = 16
 		}
 		if kind == "wrapfall" && slen < 300 {
@@ -195,7 +200,7 @@ func runListener(sc lnScen, idx int, seed int64) (*lnTrace, error) {
 		if k == "tlsfall" {
 			k, isTLS = "fall", true
 		}
-		if k == "wrapfall" {
+		if k == "wrapfall" || k == "subfall" {
 			k = "fall"
 		}
 		if k == "fall" && ci.slen < 8 {
